@@ -220,7 +220,7 @@ def encode (caps : Caps) : Cmd → List Nat
   | .eraseLineLeft => csiB ++ [49, 75]
   | .eraseLine => csiB ++ [50, 75]
   | .eraseScreen => csiB ++ [50, 74]
-  | .eraseChars n => csiB ++ showNat n ++ [88]
+  | .eraseChars n => if n = 0 then [] else csiB ++ showNat n ++ [88]
   | .face f => csiB ++ joinSemi (faceChunks f caps.depth) ++ [109]
   | .faceModify m =>
     let chunks := faceModifyChunks m caps.depth
@@ -492,20 +492,23 @@ def semDcs : List Nat → Op
      | none => .other (.dcs (43 :: 113 :: rest)))
   | data => .other (.dcs data)
 
+/-- a count parameter: absent and 0 both stand for the default 1 (ECMA-48 8.3; xterm ctlseqs) -/
+def count1 (p : Option Nat) : Nat := match p with | none => 1 | some 0 => 1 | some k => k
+
 /-- CSI without private marker and without intermediates: final byte and numeric parameters -/
 def semCsiPlain (dflt : Op) (fin : Nat) (p : List (List (Option Nat))) : Op :=
   match fin, p with
-  | 72, [[r], [c]] => .cup (r.getD 1) (c.getD 1)
-  | 72, [[r]] => .cup (r.getD 1) 1
-  | 65, [[n]] => .cuu (n.getD 1)
-  | 66, [[n]] => .cud (n.getD 1)
-  | 67, [[n]] => .cuf (n.getD 1)
-  | 68, [[n]] => .cub (n.getD 1)
+  | 72, [[r], [c]] => .cup (count1 r) (count1 c)
+  | 72, [[r]] => .cup (count1 r) 1
+  | 65, [[n]] => .cuu (count1 n)
+  | 66, [[n]] => .cud (count1 n)
+  | 67, [[n]] => .cuf (count1 n)
+  | 68, [[n]] => .cub (count1 n)
   | 74, [[k]] => .ed (k.getD 0)
   | 75, [[k]] => .el (k.getD 0)
-  | 88, [[n]] => .ech (n.getD 1)
-  | 83, [[n]] => .su (n.getD 1)
-  | 84, [[n]] => .sd (n.getD 1)
+  | 88, [[n]] => .ech (count1 n)
+  | 83, [[n]] => .su (count1 n)
+  | 84, [[n]] => .sd (count1 n)
   | 114, [[none]] => .decstbm none
   | 114, [[some t], [some b]] => .decstbm (some (t, b))
   | 110, [[some 6]] => .dsrCursor
@@ -613,7 +616,7 @@ def meaning (caps : Caps) : Cmd → List Op
   | .eraseLineLeft => [.el 1]
   | .eraseLine => [.el 2]
   | .eraseScreen => [.ed 2]
-  | .eraseChars n => [.ech n]
+  | .eraseChars n => if n = 0 then [] else [.ech n]
   | .scroll n => if n < 0 then [.sd n.natAbs] else if n > 0 then [.su n.toNat] else []
   | .scrollRegion start stop =>
     if stop > start then [.decstbm (some (satSucc start, satSucc stop))] else [.decstbm none]
